@@ -35,8 +35,8 @@ func (p *fwdPublisher) Publish(topic string, msgs ...*message.Message) error {
 func (p *fwdPublisher) Close() error { return nil }
 
 func c17Message(prefix string) *message.Message {
-	m := message.NewMessage(vrt.Str(prefix+".uuid"), message.Payload(vrt.Bytes(prefix+".payload", 2)))
-	n := vrt.Int(prefix+".nmeta", 0, 2)
+	m := message.NewMessage(vrt.Str(prefix+".uuid"), message.Payload(vrt.Bytes(prefix+".payload", vrt.Bound("maxpayload", 2))))
+	n := vrt.Int(prefix+".nmeta", 0, vrt.Bound("maxmeta", 2))
 	for i := 0; i < n; i++ {
 		m.Metadata.Set(vrt.Str(prefix+".k"+strconv.Itoa(i)), vrt.Str(prefix+".v"+strconv.Itoa(i)))
 	}
